@@ -15,6 +15,8 @@ struct / tuple / unit variants, generic tagged enum, alias, generic alias); ever
      = a reference to a renamed *Go enum*; the witnesses of the repaired classes (generic head, Kotlin/Scala/Go alias
      definition, Kotlin/Scala parent class and helper struct) are replayed as regressions: they must pass the oracle,
      and are reported as a VIOLATION "has returned" if they do not.
+     Kotlin multi-file import lines (`kotlin-import-without-prefix`, repaired by abe0590): byte-exact against the model over all
+     prefixes, and every imported name must be defined by the other module's file (kotlin_import_part).
      Generic parameters: the field `v: T` of every generic struct must be printed with the type `T` (positional), and
      one program in ten has an item called `T` (the class Known_shadow).
 """
@@ -647,11 +649,79 @@ def replay_witnesses(check):
         if bad and not check.known(kid, {"lang": lang, "source": src, "refers_to": used, "defined_as": wanted}):
             check.violation("%s output refers to `%s` where `%s` is what is defined / meant (class %s not listed as known)"
                             % (lang, used, wanted, kid), case={"lang": lang, "source": src}, impl=a, failing_input=True)
+    # the repaired class kotlin-import-without-prefix (fix abe0590): the import line must name the class as alpha defines it
     a = ans[-1]
-    if "ok" in a and "import com.example.alpha.Foo\n" in a["ok"].get("beta", "") and "data class OPFoo" in a["ok"].get("alpha", ""):
-        if not check.known("kotlin-import-without-prefix", {"lang": "kotlin", "prefix": "OP", "alpha": MULTI_A, "beta": MULTI_B}):
-            check.violation("kotlin multi-file output imports `com.example.alpha.Foo` but the class is defined as `OPFoo`",
-                            case={"alpha": MULTI_A, "beta": MULTI_B, "prefix": "OP"}, impl=a, failing_input=True)
+    check.count("repaired-witness-replayed")
+    case = {"lang": "kotlin", "prefix": "OP", "alpha": MULTI_A, "beta": MULTI_B}
+    if "ok" not in a:
+        check.violation("the regression witness of the repaired class kotlin-import-without-prefix is not generated any more: %s" % str(a)[:200],
+                        case=case, impl=a, failing_input=False,
+                        broken="correspondence L2 generate_types (regression witness TsV.C09.repaired_kotlin_import_prefix)")
+    else:
+        alpha, beta = a["ok"].get("alpha", ""), a["ok"].get("beta", "")
+        if "data class OPFoo" not in alpha or "import com.example.alpha.OPFoo\n" not in beta or "import com.example.alpha.Foo\n" in beta:
+            check.violation("the repaired class kotlin-import-without-prefix (fix abe0590) has returned: kotlin multi-file output of beta "
+                            "imports %s while alpha defines the class as `OPFoo`" % re.findall(r"^import com\.example\.alpha\.\S+", beta, re.M),
+                            case=case, impl=a, failing_input=True)
+
+
+def kotlin_import_part(check):
+    """Kotlin multi-file mode with a prefix: crate alpha defines a struct, a unit enum, a tagged enum and an alias, crate beta
+    imports a subset of them (`use alpha::X;`) and uses them.  (a) byte-exact against the model (Kotlin.writeImports);
+    (b) the oracle = theorem TsV.C09.C09_kotlin_import_lines on the implementation's text: every `import <package>.alpha.<N>`
+    line of beta's file names a declaration alpha's file defines."""
+    rng = check.rng
+    g = Gen(rng)
+    ts = [m_path("typeshare")]
+    defs_alpha = [
+        {"kind": "struct", "attrs": list(ts), "ident": "Foo", "generics": [], "fields": ("named", [field([], "a", t_path("u8"))])},
+        {"kind": "enum", "attrs": list(ts), "ident": "Kind", "generics": [],
+         "variants": [{"attrs": [], "ident": "P", "fields": ("unit",)}, {"attrs": [], "ident": "Q", "fields": ("unit",)}]},
+        {"kind": "enum", "attrs": list(ts) + [m_list("serde", [m_nv("tag", lit_s("t")), m_nv("content", lit_s("c"))])], "ident": "Shape",
+         "generics": [], "variants": [{"attrs": [], "ident": "A", "fields": ("unnamed", [field([], None, t_path("String"))])},
+                                      {"attrs": [], "ident": "B", "fields": ("unit",)}]},
+        {"kind": "alias", "attrs": list(ts), "ident": "Ident", "generics": [], "ty": t_path("String")},
+    ]
+    names = ["Foo", "Kind", "Shape", "Ident"]
+    subsets = [c for r in (1, 2, 4) for c in itertools.combinations(names, r)]
+    if not check.thorough:
+        subsets = [("Foo",), ("Kind", "Ident"), tuple(names)]
+    mreqs, rreqs, meta, allnames = [], [], [], set()
+    for pfx in PREFIXES:
+        for used in subsets:
+            fa = {"attrs": [], "items": [dict(d) for d in defs_alpha]}
+            fb = {"attrs": [], "items": [{"kind": "use", "tree": ("upath", "alpha", ("uname", w))} for w in used] + [
+                {"kind": "struct", "attrs": list(ts), "ident": "Bar", "generics": [],
+                 "fields": ("named", [field([], "f%d" % i, t_path(w) if i % 2 == 0 else t_path("Vec", [t_path(w)])) for i, w in enumerate(used)])}]}
+            jobs = [{"crate": "alpha", "file_name": "alpha.out", "path": "alpha/src/lib.rs", "file": fa},
+                    {"crate": "beta", "file_name": "beta.out", "path": "beta/src/lib.rs", "file": fb}]
+            allnames |= l2.names_of(fa) | l2.names_of(fb)
+            m, r, texts = l2.requests("kotlin", cfg_of("kotlin", pfx), jobs, g, multi_file=True)
+            mreqs.append(m)
+            rreqs.append(r)
+            meta.append((pfx, used, texts))
+    mans = [l2.norm(a) for a in model(mreqs, names=allnames)]
+    rans = [l2.norm(a) for a in runner(rreqs)]
+    mismatch = None
+    for (pfx, used, texts), ma, ra in zip(meta, mans, rans):
+        check.saw(("kotlin-import", pfx, used), nontrivial=bool(pfx))
+        check.count("kotlin-multi-file-imports")
+        case = {"lang": "kotlin", "prefix": pfx, "sources": texts}
+        if "ok" in ra:
+            defs = extract("kotlin", ra["ok"].get("alpha", ""))[0]
+            imported = re.findall(r"^import com\.example\.alpha\.(\S+)$", ra["ok"].get("beta", ""), re.M)
+            bad = sorted(n for n in imported if n not in defs)
+            if bad or len(imported) != len(used):
+                check.violation("kotlin multi-file output (prefix %r) of beta imports %s from alpha, which defines %s%s"
+                                % (pfx, imported, sorted(defs), " (the repaired class kotlin-import-without-prefix, fix abe0590, has returned)" if bad else ""),
+                                case=case, impl=ra, model=ma, failing_input=True)
+                return
+        if ma != ra and mismatch is None and "ambiguous" not in ma:
+            mismatch = (case, ma, ra)
+    if mismatch:
+        case, ma, ra = mismatch
+        check.violation("kotlin multi-file generation differs from the model on import lines", case=case, impl=ra, model=ma,
+                        failing_input=False, broken="correspondence L2 Kotlin write_imports (theorem TsV.C09.C09_kotlin_import_lines)")
 
 
 def multi_part(check):
@@ -875,6 +945,8 @@ def run(check):
     replay_witnesses(check)
     if not check.violations:
         multi_part(check)
+    if not check.violations:
+        kotlin_import_part(check)
     if not check.violations:
         go_acronym_part(check)
     if not check.violations:
